@@ -379,3 +379,8 @@ def replay(clause, case, col):
     ns, _ = make_callables(params, "replay")
     # restrict to the recorded flavour; both apis are cheap, run the recorded one first
     check_calls(params, "replay", calls, col, flavours=(case["flavour"],), source="replay")
+
+
+def cg_plan(seed):
+    """coverage-guided shards of the thorough tier (harness/cg.py): same strategies and check functions, choices from libFuzzer"""
+    return [{"kind": "random", "seed": seed * 1000 + 900 + k, "n": 0, "cg": {"runs": 30000}} for k in range(4)]
